@@ -319,6 +319,7 @@ def run(ctx, F, rule="E-RAW"):
                "reserve (%s) must compare the free-slot counter with the required spare and call reserve_rehash" % F.where(fid))
     check_slot_clone(ctx, F)
     check_remove_successor(ctx, F)
+    check_probe_exits(ctx, F)
 
 
 def check_slot_clone(ctx, F, rule="E-RAW.clone"):
@@ -405,3 +406,61 @@ def check_remove_successor(ctx, F, rule="E-RAW.succ"):
                             "S::FREE: a tombstone successor also makes the vacated slot FREE, cutting the probe chain of the "
                             "elements behind it"))
     return 1
+
+
+def _free_eq_tests(m, B):
+    """switches on `status == S::FREE`: (switch block, true successor, false successors)"""
+    out = []
+    for i in sorted(B.reach):
+        b = m["blocks"][i]
+        t = b["t"]
+        if b["c"] or t["k"] != "call" or not (cfg.callee_name(t) or "").endswith("PartialEq::eq"):
+            continue
+        consts = [const_of((s.get("rv") or {}).get("op")) for s in b["s"] if (s.get("rv") or {}).get("k") == "use"]
+        if not any(c and c.endswith(FREE_C) for c in consts):
+            continue
+        nxt = t.get("t")
+        if nxt is None or m["blocks"][nxt]["t"]["k"] != "switch":
+            continue
+        tt = m["blocks"][nxt]["t"]
+        out.append((nxt, tt["o"], [blk for v, blk in tt["t"] if str(v) == "0"]))
+    return out
+
+
+def check_probe_exits(ctx, F, rule="E-RAW.probe"):
+    """A lookup may answer "absent" only when its probe sequence reaches a FREE slot: tombstones mark removed
+    elements *inside* a chain, the element looked for may sit behind them.  From MIR of `find` and
+    `find_or_find_insert_slot`: every `None` / `Err(slot)` exit inside the probe loop lies on the true edge of an
+    equality test of the slot status with `S::FREE` (the `len == 0` shortcut before the loop is exempt)."""
+    n = 0
+    for fid in sorted(F.mir):
+        if not (fid.startswith("linear_hashtbl::raw::") and re.search(r"RawTable<T, S, A>>::(find|find_or_find_insert_slot)$", F.nice(fid))):
+            continue
+        m = F.mir[fid]
+        B = cfg.Body(m)
+        tests = _free_eq_tests(m, B)
+        exits = []
+        for i in sorted(B.reach):
+            b = m["blocks"][i]
+            if b["c"]:
+                continue
+            for s in b["s"]:
+                rv = s.get("rv") or {}
+                if s.get("lhs") == 0 and rv.get("k") == "aggr" and rv.get("variant") in ("None", "Err"):
+                    exits.append(i)
+        # exits before any slot is inspected (empty table) are fine: they are not reachable from a status load
+        loads = [i for i in sorted(B.reach) if any(".status@" in str(s) for s in m["blocks"][i]["s"])]
+        n += 1
+        bad = []
+        for e in exits:
+            if not any(B.can_reach(l, e) for l in loads):
+                continue
+            if not any(B.dominates(ts, e) and not any(e in B.reachable_from(fs, avoid=(sw,)) for fs in fss) for sw, ts, fss in tests):
+                bad.append(e)
+        ctx.ob(rule, "%s:%s" % (rule, short(F, fid)), bool(tests) and not bad,
+               "%s (%s): %s" % (F.nice(fid), F.where(fid),
+                                "every `absent` exit of the probe loop is on the `status == S::FREE` edge" if tests and not bad else
+                                "the probe loop answers `absent` on a slot that was not compared equal to S::FREE (e.g. on a "
+                                "tombstone): an element stored behind a tombstone is not found and gets inserted a second time"))
+    ctx.floor(rule, "probe functions", n, 2)
+    return n
